@@ -396,6 +396,7 @@ type StickyRun struct {
 	Panic   string      `json:"panic,omitempty"`
 	Plan    []PlanEntry `json:"plan"`
 	RawPlan sarama.BalanceStrategyPlan `json:"-"`
+	Other   map[string]int `json:"other,omitempty"`
 }
 
 func tps(l []sarama.VerifTP) []TP {
@@ -424,6 +425,7 @@ func RunSticky(in Input) StickyRun {
 	run := StickyRun{In: in}
 	plan, tr, err, panicked := sarama.VerifStickyPlan(in.MemberMap(), in.TopicMap())
 	run.Hooked = tr.Events > 0
+	run.Other = tr.Other
 	run.Err = err != nil
 	run.Panic = panicked
 	if plan != nil {
@@ -700,4 +702,91 @@ func (w *World) Feedback(plan sarama.BalanceStrategyPlan) {
 			}
 		}
 	}
+}
+
+// Adversarial builds a group whose user data forges an arbitrary, skewed current assignment (generation 5) and arbitrary
+// previous owners (generations 1..4): the state performReassignments starts from is then nearly unconstrained.
+func Adversarial(r *rand.Rand, maxM, maxT, maxP int) Input {
+	in := Input{}
+	nt := 1 + r.Intn(maxT)
+	perm := r.Perm(len(topicNames))
+	for t := 0; t < nt; t++ {
+		in.Topics = append(in.Topics, Topic{topicNames[perm[t]], Seq(1 + r.Intn(maxP))})
+	}
+	nm := 2 + r.Intn(maxM-1)
+	ident := r.Intn(2) == 0
+	cur := make([]map[string][]int32, nm)
+	old := make([]map[string][]int32, nm)
+	for i := 0; i < nm; i++ {
+		m := Member{ID: fmt.Sprintf("m%d", i)}
+		for t := 0; t < nt; t++ {
+			if ident || r.Intn(3) != 0 {
+				m.Topics = append(m.Topics, in.Topics[t].Name)
+			}
+		}
+		in.Members = append(in.Members, m)
+		cur[i] = map[string][]int32{}
+		old[i] = map[string][]int32{}
+	}
+	heavy := r.Intn(nm)
+	for _, t := range in.Topics {
+		for _, p := range t.Parts {
+			// current owner: skewed towards one member; sometimes nobody
+			o := r.Intn(nm)
+			if r.Intn(2) == 0 {
+				o = heavy
+			}
+			if r.Intn(8) != 0 {
+				cur[o][t.Name] = append(cur[o][t.Name], p)
+			}
+			if r.Intn(2) == 0 {
+				q := r.Intn(nm)
+				old[q][t.Name] = append(old[q][t.Name], p)
+			}
+		}
+	}
+	if r.Intn(2) == 0 {
+		// nobody starts empty (then balance() is not "initializing" and may take its revert branch): move one
+		// partition of a subscribed topic from the heavy member to each empty one
+		for i := 0; i < nm; i++ {
+			if len(cur[i]) > 0 || len(in.Members[i].Topics) == 0 {
+				continue
+			}
+			t := in.Members[i].Topics[r.Intn(len(in.Members[i].Topics))]
+			for o := 0; o < nm; o++ {
+				if l := cur[o][t]; o != i && len(l) > 1 {
+					cur[i][t] = []int32{l[len(l)-1]}
+					cur[o][t] = l[:len(l)-1]
+					break
+				}
+			}
+		}
+	}
+	for i := range in.Members {
+		// a member reports either its current claim (generation 5) or its old one (generation 1..4)
+		var b []byte
+		if len(cur[i]) > 0 || len(old[i]) == 0 {
+			b, _ = sarama.BalanceStrategySticky.AssignmentData("", cur[i], 5)
+			// fold the old claims of this member into another member's report when possible
+		} else {
+			b, _ = sarama.BalanceStrategySticky.AssignmentData("", old[i], int32(1+r.Intn(4)))
+		}
+		in.Members[i].Data = b
+	}
+	// extra members that only carry old claims (they may subscribe to anything)
+	for i := 0; i < nm; i++ {
+		if len(cur[i]) > 0 && len(old[i]) > 0 && r.Intn(2) == 0 {
+			m := Member{ID: fmt.Sprintf("old%d", i)}
+			for t := 0; t < nt; t++ {
+				if ident || r.Intn(2) == 0 {
+					m.Topics = append(m.Topics, in.Topics[t].Name)
+				}
+			}
+			b, _ := sarama.BalanceStrategySticky.AssignmentData("", old[i], int32(1+r.Intn(4)))
+			m.Data = b
+			in.Members = append(in.Members, m)
+		}
+	}
+	in.Normalize()
+	return in
 }
